@@ -1,33 +1,22 @@
 // C43 — (appended to varpulis-lsp/src/navigation.rs)
-// shared by the three C43 modules: bounded documents over a 6-character alphabet incl. newline and a 2-byte character
-pub const ALPHA: [char; 6] = ['a', '_', ' ', '\n', 'é', '1'];
-pub fn mkdoc(n: u8, c: [u8; 3]) -> String {
-    let mut s = String::new();
-    let mut i = 0;
-    while i < 3 { if (i as u8) < n { s.push(ALPHA[(c[i] % 6) as usize]); } i += 1; }
-    s
-}
-pub fn newlines(s: &str) -> usize { let mut k = 0; for ch in s.chars() { if ch == '\n' { k += 1; } } k }
-pub fn nchars(s: &str) -> usize { let mut k = 0; for _ in s.chars() { k += 1; } k }
+// every valid UTF-8 document of at most `n` bytes (n <= 3), from symbolic bytes
+pub fn doc<'a>(n: u8, b: &'a [u8; 3]) -> Option<&'a str> { if n > 3 { return None; } std::str::from_utf8(&b[..n as usize]).ok() }
+pub fn newlines(s: &str) -> usize { let mut k = 0; for c in s.bytes() { if c == b'\n' { k += 1; } } k }
 
+vpv_cell!(#[kani::unwind(8)] c43_byte_offset_to_position, "C43/navigation::byte_offset_to_position/no-panic, line <= #newlines, col <= #bytes (all UTF-8 docs <= 2 bytes, every offset)",
+  (n: u8, b: [u8; 3], pos: u8), {
+    if n > 2 || pos > 4 { return true; }
+    let Some(d) = doc(n, &b) else { return true; };
+    let (line, col) = byte_offset_to_position(d, pos as usize);
+    line <= newlines(d) && col <= d.len() });
 
-vpv_cell!(#[kani::unwind(8)] c43_byte_offset_to_position, "C43/navigation::byte_offset_to_position/no-panic, line <= #newlines, col <= #chars (docs <= 2 chars)",
-  (n: u8, c: [u8; 3], pos: u8), {
-    if n > 2 { return true; }
-    let doc = mkdoc(n, c);
-    if pos as usize > doc.len() + 1 { std::mem::forget(doc); return true; }
-    let (line, col) = byte_offset_to_position(&doc, pos as usize);
-    let ok = line <= newlines(&doc) && col <= nchars(&doc);
-    std::mem::forget(doc);
-    ok });
-
-vpv_cell!(#[kani::unwind(24)] c43_word_at_position, "C43/navigation::word_at_position/no-panic; a returned word is non-empty and not longer than the document (docs <= 2 chars)",
-  (n: u8, c: [u8; 3], line: u8, ch: u8), {
-    if n > 2 || line > 3 || ch > 5 { return true; }
-    let doc = mkdoc(n, c);
-    let w = word_at_position(&doc, Position { line: line as u32, character: ch as u32 });
-    let ok = match &w { Some(s) => !s.is_empty() && nchars(s) <= nchars(&doc), None => true };
-    std::mem::forget(w); std::mem::forget(doc);
+vpv_cell!(#[kani::unwind(24)] c43_word_at_position, "C43/navigation::word_at_position/no-panic; a returned word is non-empty and not longer than the document (all UTF-8 docs <= 2 bytes)",
+  (n: u8, b: [u8; 3], line: u8, ch: u8), {
+    if n > 2 || line > 2 || ch > 4 { return true; }
+    let Some(d) = doc(n, &b) else { return true; };
+    let w = word_at_position(d, Position { line: line as u32, character: ch as u32 });
+    let ok = match &w { Some(s) => !s.is_empty() && s.len() <= d.len(), None => true };
+    std::mem::forget(w);
     ok });
 
 vpv_replay_table!(c43_byte_offset_to_position, c43_word_at_position);
